@@ -60,7 +60,7 @@ var props = map[string]propCfg{
 	"C08": {
 		level: "fault_enumeration",
 		rule: "per run: (A) a generated program and history checked stride by stride against the reference's completed executions; (B) for an action with n<=4 emits, failure after the k-th emit for every k in [0,n] x {throw, bad return, unserialisable emit}, as first or second action of a three-message walk, under a tape-chosen error-routing mode, with or without an emitting guard; distinct = distinct (program, n, mode, position)",
-		parts: []part{{name: "core", engine: "core", quick: 2500, thorough: 150000}},
+		parts: []part{{name: "core", engine: "core", quick: 2500, thorough: 150000}, {name: "sio", engine: "sio", quick: 1500, thorough: 100000}},
 		comps: []string{"real: core.Spec.Compile/Step/Walk, match.Match, interpreters/ecmascript (goja) - instrumented copies with the map-order seam", "reference: /verif/ref machine + mini-matcher (written from the documentation)", "injected: action/guard failures (throw, bad return, unserialisable emit, null, stub interpreter results), map iteration orders"},
 	},
 	"C09": {
@@ -99,6 +99,18 @@ var props = map[string]propCfg{
 			{name: "swap", engine: "core", race: true, quick: 800, thorough: 40000},
 		},
 		comps: []string{"real: core.Spec.Walk/Step, core.UpdatableSpec, match, ecmascript interpreter - instrumented copies", "simulated: goroutine scheduling; race detector as happens-before monitor"},
+	},
+	"C14": {
+		level: "exploration",
+		rule: "sio: a crew of 1-5 recorder machines, 1-4 submitted messages with unique ids, routing targets (absent, id, '*', unknown, service names, lists with unknown, repeated, non-string and service members) and nested emission instructions (hop budget 2); the order in which machines are presented a message comes from the map-order seam; counting oracle over the recorders' logs and Result.Emitted; distinct = distinct (crew size, processed/batch counts) shapes",
+		parts: []part{{name: "sio", engine: "sio", race: false, quick: 2500, thorough: 150000}},
+		comps: []string{"real: sio.Crew ProcessMsg/RunMachines/toMachines, core.Walk, ecmascript interpreter (instrumented copies)", "reference: router model (documented routing rule, breadth-first queue) in the harness", "simulated: order in which machines are presented a message (map-order seam)"},
+	},
+	"C15": {
+		level: "fault_enumeration",
+		rule: "each run: a history of 2-8 operations over <=3 machine ids - captain create (two spec versions, with or without state), replace state, replace spec, delete, re-create, interleaved with routed/unrouted messages that move the recorder machines; after every ProcessMsg the fold of Result.Changed is compared with the live crew (node, bindings, spec source modulo compilation, deleted machines absent); then for every message boundary a twin crew is booted from the JSON of the shadow store and must produce equal states and emission batches for the rest of the history; distinct = distinct operation-kind sequences",
+		parts: []part{{name: "", engine: "sio", race: false, quick: 1500, thorough: 100000}},
+		comps: []string{"real: sio.Crew (ProcessMsg, captain machine, SetMachine/DeleteMachine, GetChanged), core.Walk, ecmascript interpreter", "reference: shadow store folded exactly as sio/stdio.go folds Result.Changed; boot path as sio/siostd/main.go", "injected: crash/restart at every message boundary (JSON round trip of the store), order of machines (map-order seam)"},
 	},
 	"C17": {
 		level: "exploration",
